@@ -15,7 +15,7 @@ ASSUMPTIONS = [
 
 
 def run():
-  return pairrun.run_pairs('C08', [('lv.gen_meta', 'c08_pairs', 120, 2400)], FUNCTIONS, ASSUMPTIONS,
+  return pairrun.run_pairs('C08', [('lv.gen_meta', 'c08_pairs', 120, 2400), ('lv.gen_meta', 'c08_shared_with_pairs', 8, 64)], FUNCTIONS, ASSUMPTIONS,
                            'DESIGN.md §3 C08',
                            rejected_is_violation=lambda r: r.get('rejected_side') == 'b')
 
